@@ -346,7 +346,10 @@ class Inotify:
                         events.append(e)
                 for filename in filenames:
                     full_path = os.path.join(root, filename)
-                    wd_parent_dir = self._wd_for_path[os.path.dirname(full_path)]
+                    wd_parent_dir = self._wd_for_path.get(os.path.dirname(full_path))
+                    if wd_parent_dir is None:
+                        # The directory could not be watched (it vanished a moment ago).
+                        continue
                     e = InotifyEvent(
                         wd_parent_dir,
                         InotifyConstants.IN_CREATE,
